@@ -191,9 +191,9 @@ type limits struct {
 
 func tierLimits(thorough bool) limits {
 	if thorough {
-		return limits{maxN: 3, corrMaxN: 4, thorough: true, prefix2Full: true}
+		return limits{maxN: 4, corrMaxN: 4, thorough: true, prefix2Full: true}
 	}
-	return limits{maxN: 2, corrMaxN: 3, thorough: false}
+	return limits{maxN: 3, corrMaxN: 3, thorough: false}
 }
 
 var bothVers = []int16{verPlain, verFlex}
